@@ -218,7 +218,9 @@ func valuesBig() []val {
 // target). Undefined bytes are tried bare.
 func variants(b byte) (encs [][]byte, trailer []byte) {
 	o := sv.Op(b)
-	nops := []byte{byte(sv.NOP), byte(sv.NOP)}
+	// two one-byte instructions that leave a trace: a jump/call to the second
+	// one is visible in the result stack
+	nops := []byte{byte(sv.PUSH5), byte(sv.PUSH6)}
 	if !sv.Defined(b) {
 		return [][]byte{{b}}, nil
 	}
@@ -434,7 +436,7 @@ func sections(r *vk.Run) []section {
 			}
 		}
 	}})
-	secs = append(secs, seqSection(r), trySection(r), compoundSection(r), limitSection())
+	secs = append(secs, seqSection(r), trySection(r), compoundSection(r), limitSection(), slotSection(r))
 	// cheap and diverse sections first, the big sweeps last (the deadline, if
 	// it ever strikes, then cuts the most redundant part).
 	order := map[string]int{"nullary": 0, "limits": 1, "unary": 2, "memcpy": 3, "big-values": 4, "try-nests(depth2)": 5}
@@ -444,6 +446,11 @@ func sections(r *vk.Run) []section {
 		}
 		switch {
 		case strings.HasPrefix(s.name, "compound"):
+			if r.Thorough() {
+				return 10 // len 4: the largest section of the thorough tier goes last
+			}
+			return 6
+		case strings.HasPrefix(s.name, "slots"):
 			return 6
 		case s.name == "binary":
 			return 7
@@ -544,6 +551,10 @@ func (c *asmCtx) one(n *node, fnOff func(fn int, at int) int32, base int) []byte
 		return c.marker()
 	case "throw":
 		return cat(c.marker(), op(sv.THROW))
+	case "engine":
+		return cat(c.marker(), op(sv.NEWARRAY0), pushI(0), op(sv.PICKITEM))
+	case "abort":
+		return cat(c.marker(), op(sv.ABORT))
 	case "call":
 		return op(sv.CALL_L, le32(fnOff(n.fn, base))...)
 	case "try":
@@ -597,6 +608,10 @@ func describe(ns []*node) string {
 			p = append(p, "m")
 		case "throw":
 			p = append(p, "throw")
+		case "engine":
+			p = append(p, "pickitem-out-of-range")
+		case "abort":
+			p = append(p, "abort")
 		case "call":
 			p = append(p, fmt.Sprintf("call%d", n.fn))
 		case "try":
@@ -635,6 +650,8 @@ func assemble(main []*node, fns [][]*node) []byte {
 
 var mk = &node{kind: "mark"}
 var thr = &node{kind: "throw"}
+var eng = &node{kind: "engine"} // exception raised by the engine: PICKITEM out of range
+var abt = &node{kind: "abort"}  // ABORT: not catchable
 
 func tryNode(shape string, body, catch, fin []*node) *node {
 	return &node{kind: "try", shape: shape, body: body, catch: catch, fin: fin}
@@ -671,7 +688,7 @@ type fillOpt struct {
 }
 
 func regionFills() []fillOpt {
-	opts := []fillOpt{{ns: []*node{mk}}, {ns: []*node{thr}}}
+	opts := []fillOpt{{ns: []*node{mk}}, {ns: []*node{thr}}, {ns: []*node{eng, mk}}, {ns: []*node{abt}}}
 	for _, in := range innerTries() {
 		opts = append(opts, fillOpt{ns: []*node{mk, in, mk}})
 	}
@@ -785,7 +802,7 @@ func compoundPrefixes() []val {
 func compoundSection(r *vk.Run) section {
 	alpha := compoundAlphabet()
 	pre := compoundPrefixes()
-	depth := vk.Pick(r, 2, 3)
+	depth := vk.Pick(r, 3, 4)
 	return section{fmt.Sprintf("compound-aliasing(len<=%d)", depth), len(pre) * len(alpha), func(j int, emit func(prog)) {
 		p := pre[j/len(alpha)]
 		first := j % len(alpha)
@@ -891,6 +908,20 @@ func limitSection() section {
 			f := cat(op(sv.DUP), op(sv.JMPIFNOT, 5), op(sv.DEC), op(sv.CALL, 0xfc /* -4: back to f */), op(sv.RET))
 			e(fmt.Sprintf("recursion(%d)", n), pushI(n), op(sv.CALL, 3), op(sv.RET), f)
 		}
+		// bounded loops with backward jumps (short and long forms, every compare)
+		for _, n := range []int64{0, 1, 5, 300} {
+			// acc=0; i=n; while i > 0 { acc += i; i-- }  -> acc
+			// PUSH0 PUSH n | loop: DUP PUSH0 JMPLE end | DUP ROT ADD SWAP DEC JMP loop | end: DROP
+			head := cat(pushI(0), pushI(n))
+			body := cat(op(sv.DUP), pushI(0), op(sv.JMPLE, 9), op(sv.DUP), op(sv.ROT), op(sv.ADD), op(sv.SWAP), op(sv.DEC), op(sv.JMP, 0xf7 /* -9 */))
+			e(fmt.Sprintf("loop-sum-JMPLE(%d)", n), head, body, op(sv.DROP))
+			bodyL := cat(op(sv.DUP), pushI(0), op(sv.JMPLE_L, le32(15)...), op(sv.DUP), op(sv.ROT), op(sv.ADD), op(sv.SWAP), op(sv.DEC), op(sv.JMP_L, le32(-12)...))
+			e(fmt.Sprintf("loop-sum-JMPLE_L(%d)", n), head, bodyL, op(sv.DROP))
+			// count down with JMPIF: PUSH n | loop: DUP JMPIFNOT end | DEC JMP loop | end:
+			e(fmt.Sprintf("loop-JMPIFNOT(%d)", n), pushI(n), op(sv.DUP), op(sv.JMPIFNOT, 5), op(sv.DEC), op(sv.JMP, 0xfc), op(sv.DEPTH))
+			// do { i-- } while (i >= 0) with JMPGE backwards
+			e(fmt.Sprintf("loop-JMPGE-back(%d)", n), pushI(n), op(sv.DEC), op(sv.DUP), pushI(0), op(sv.JMPGE, 0xfd), op(sv.DEPTH))
+		}
 		// RIGHT with the largest int32 count (the implementation allocates 2 GB
 		// before it rejects it: run here, alone)
 		e("RIGHT(bytes(abc),2^31-1)", pushD([]byte("abc")), pushI(1<<31-1), op(sv.RIGHT))
@@ -912,5 +943,65 @@ func limitSection() section {
 			// cyclic garbage, then an allocation that only fits if the garbage is not counted
 			e(fmt.Sprintf("cyclic-garbage-then-NEWARRAY(%d)", n), pushI(n), op(sv.NEWARRAY), op(sv.DUP), op(sv.DUP), op(sv.APPEND), op(sv.DROP), pushI(n), op(sv.NEWARRAY))
 		}
+	}}
+}
+
+// ---- slots ----------------------------------------------------------------------------------------------
+
+// slotSection: all sequences over load/store instructions of the three slot
+// kinds (with an out-of-range index, an aliased array and a callee that has
+// its own locals/arguments but shares the static fields) after
+// INITSSLOT 2; INITSLOT 2 locals, 2 arguments.
+func slotSection(r *vk.Run) section {
+	type sop struct {
+		Name string
+		Code []byte
+	}
+	o := func(x sv.Op) sop { return sop{x.Name(), op(x)} }
+	// CALL_L to the function placed after the final RET; patched per program.
+	alpha := []sop{
+		o(sv.LDSFLD0), o(sv.LDSFLD0 + 1), o(sv.STSFLD0), o(sv.STSFLD0 + 1), {"LDSFLD(2)", op(sv.LDSFLD, 2)}, {"STSFLD(255)", op(sv.STSFLD, 255)},
+		o(sv.LDLOC0), o(sv.LDLOC0 + 1), o(sv.STLOC0), {"STLOC(1)", op(sv.STLOC, 1)}, {"LDLOC(2)", op(sv.LDLOC, 2)},
+		o(sv.LDARG0), o(sv.LDARG0 + 1), o(sv.STARG0), {"STARG(1)", op(sv.STARG, 1)}, {"LDARG(6)", op(sv.LDARG0 + 6)},
+		{"PUSH7", pushI(7)}, o(sv.NEWARRAY0), o(sv.DUP), o(sv.APPEND), o(sv.DROP), {"CALL", nil}, {"INITSLOT(1,0)", op(sv.INITSLOT, 1, 0)}, {"INITSSLOT(1)", op(sv.INITSSLOT, 1)},
+	}
+	depth := vk.Pick(r, 3, 4)
+	prefix := cat(pushI(21), pushI(22), op(sv.INITSSLOT, 2), op(sv.INITSLOT, 2, 2))
+	// callee: own frame (1 local, 1 argument taken from the shared stack),
+	// writes static field 1, returns its argument + 1.
+	callee := cat(op(sv.INITSLOT, 1, 1), op(sv.LDARG0), op(sv.INC), op(sv.DUP), op(sv.STSFLD0+1), op(sv.LDLOC0), op(sv.DROP), op(sv.RET))
+	return section{fmt.Sprintf("slots(len<=%d)", depth), len(alpha), func(j int, emit func(prog)) {
+		var rec func(seq []int)
+		rec = func(seq []int) {
+			names := make([]string, len(seq))
+			// size of the body first (CALL_L is 5 bytes)
+			size := len(prefix)
+			for _, k := range seq {
+				if alpha[k].Code == nil {
+					size += 5
+				} else {
+					size += len(alpha[k].Code)
+				}
+			}
+			fnAt := size + 1 // after the RET
+			code := append([]byte{}, prefix...)
+			for i, k := range seq {
+				names[i] = alpha[k].Name
+				if alpha[k].Code == nil {
+					code = append(code, op(sv.CALL_L, le32(int32(fnAt-len(code)))...)...)
+				} else {
+					code = append(code, alpha[k].Code...)
+				}
+			}
+			code = append(code, byte(sv.RET))
+			code = append(code, callee...)
+			emit(prog{Key: strings.Join(names, ",") + ":slots(static2,local2,args[22,21])", Class: alpha[seq[len(seq)-1]].Name, Script: code})
+			if len(seq) < depth {
+				for k := range alpha {
+					rec(append(append([]int{}, seq...), k))
+				}
+			}
+		}
+		rec([]int{j})
 	}}
 }
